@@ -403,6 +403,25 @@ func absentGuarded(cd map[*ssa.BasicBlock][]ssau.CtrlDep, blk *ssa.BasicBlock, i
 				}
 			}
 		}
+		// the map lives in a variable (a captured one, in a closure): every
+		// use is a fresh load of the same variable
+		if ld, ok := lk.X.(*ssa.UnOp); ok && ld.Op == token.MUL {
+			for _, ref := range *ld.X.Referrers() {
+				ld2, ok := ref.(*ssa.UnOp)
+				if !ok || ld2.X != ld.X {
+					continue
+				}
+				for _, r2 := range *ld2.Referrers() {
+					if mu, ok := r2.(*ssa.MapUpdate); ok && mu.Map == ssa.Value(ld2) && isElem(mu.Key) {
+						for _, d2 := range ssau.TransitiveControlDeps(cd, mu.Block()) {
+							if d2 == d {
+								return true
+							}
+						}
+					}
+				}
+			}
+		}
 	}
 	return false
 }
